@@ -692,6 +692,16 @@ func (m *Monitors) OnEvent(e *spi.Event) {
 	}
 	n := w.Nodes[e.Node]
 	nm := m.node(e.Node)
+	// every SPI call is an observation point of the node's (height, view): what a consumer sees from inside its callbacks
+	{
+		x := n.St.HeightView()
+		h, v := uint64(x.Height()), uint64(x.View())
+		if nm.sampled && (h < nm.lastH || (h == nm.lastH && v < nm.lastV)) {
+			m.violate("C13", "state-went-backwards", "node %s (h,v) went from (%d,%d) to (%d,%d) (seen from inside the SPI call %s)", n.Id, nm.lastH, nm.lastV, h, v, e.Kind)
+		}
+		nm.lastH, nm.lastV, nm.sampled = h, v, true
+		m.Stats["C13 samples taken inside SPI calls"]++
+	}
 	switch e.Kind {
 	case spi.EvCommit:
 		m.onCommit(n, nm, e)
